@@ -334,12 +334,128 @@ def t4(run: Run, prog: Program):
     run.floor("T4 matrix/N pairs", n, 4)
 
 
+def t7(run: Run, prog: Program):
+    """Size provenance of block assemblies: when a matrix block `M[:S, ...] =
+    self.P.<matrix>()` is sized by the stored size S, S must have been measured
+    on the very series the plot P was built from (or on a plain alias of it) -
+    not on a series that a length-changing transformation (embedding) replaced."""
+    n = 0
+    for C in sorted((c for c in prog.classes.values()
+                     if any(b.name in ("InteractingNetworks", PLOT_ROOT) for b in c.mro)),
+                    key=lambda c: c.name):
+        size_of, series_of, defs = {}, {}, {}
+        for f in C.methods.values():
+            sn = f.params[0] if f.params else None
+            if sn is None:
+                continue
+
+            def cell(e):
+                if isinstance(e, ast.Attribute) and isinstance(e.value, ast.Name) and \
+                        e.value.id == sn:
+                    return e.attr
+                return None
+            for a in ast.walk(f.node):
+                if not (isinstance(a, ast.Assign) and len(a.targets) == 1):
+                    continue
+                t = cell(a.targets[0])
+                if t is None:
+                    continue
+                v = a.value
+                # self.S = self.C.shape[0] | len(self.C)
+                if isinstance(v, ast.Subscript) and isinstance(v.value, ast.Attribute) and \
+                        v.value.attr == "shape" and cell(v.value.value) and \
+                        isinstance(v.slice, ast.Constant) and v.slice.value == 0:
+                    size_of.setdefault(t, set()).add(cell(v.value.value))
+                elif isinstance(v, ast.Call) and isinstance(v.func, ast.Name) and \
+                        v.func.id == "len" and v.args and cell(v.args[0]):
+                    size_of.setdefault(t, set()).add(cell(v.args[0]))
+                # self.P = <Plot>(time_series=self.D | x=self.D, y=self.E ...)
+                elif isinstance(v, ast.Call) and isinstance(v.func, ast.Name) and \
+                        v.func.id.endswith("RecurrencePlot"):
+                    ser = [cell(k.value) for k in v.keywords
+                           if k.arg in ("time_series", "x", "y")] + \
+                        [cell(x) for x in v.args[:2]]
+                    series_of.setdefault(t, []).append([x for x in ser if x])
+                # every other definition of a cell (to see aliases / transforms)
+                defs.setdefault(t, []).append(v)
+        if not size_of or not series_of:
+            continue
+
+        def same_length(d, c, depth=0):
+            """Is cell d always (a plain alias of) cell c?"""
+            if d == c:
+                return True
+            if depth > 3 or d not in defs:
+                return False
+            for v in defs[d]:
+                tgt = v
+                if not (isinstance(tgt, ast.Attribute) and isinstance(tgt.value, ast.Name)
+                        and same_length(tgt.attr, c, depth + 1)):
+                    return False
+            return True
+        for f in C.methods.values():
+            sn = f.params[0] if f.params else None
+            if sn is None:
+                continue
+            alias = {}
+            for a in ast.walk(f.node):
+                if isinstance(a, ast.Assign) and isinstance(a.targets[0], ast.Name) and \
+                        isinstance(a.value, ast.Attribute) and \
+                        isinstance(a.value.value, ast.Name) and a.value.value.id == sn:
+                    alias[a.targets[0].id] = a.value.attr
+            for a in ast.walk(f.node):
+                if not (isinstance(a, ast.Assign) and isinstance(a.targets[0], ast.Subscript)
+                        and isinstance(a.value, ast.Call)
+                        and isinstance(a.value.func, ast.Attribute)
+                        and isinstance(a.value.func.value, ast.Attribute)):
+                    continue
+                P = a.value.func.value
+                if not (isinstance(P.value, ast.Name) and P.value.id == sn and
+                        P.attr in series_of):
+                    continue
+                sl = a.targets[0].slice
+                dims = sl.elts if isinstance(sl, ast.Tuple) else [sl]
+                if not dims or not isinstance(dims[0], ast.Slice):
+                    continue
+                d0 = dims[0]
+                # rows [:S] (first block) -> S sizes the plot's first series
+                if d0.lower is None and isinstance(d0.upper, (ast.Name, ast.Attribute)):
+                    S = alias.get(d0.upper.id) if isinstance(d0.upper, ast.Name) else \
+                        d0.upper.attr
+                    if S not in size_of:
+                        continue
+                    n += 1
+                    measured = size_of[S]
+                    built = {ser[0] for ser in series_of[P.attr] if ser}
+                    ok = all(same_length(b, m_) for b in built for m_ in measured)
+                    run.oblige("T7", f"{C.name}.{f.name}:{S}~{P.attr}", ok, sample={
+                        "where": f"{f.module.relpath}:{a.lineno}",
+                        "size_measured_on": sorted(measured),
+                        "plot_built_from": sorted(built)})
+                    if not ok:
+                        run.add("T7", f"{C.name}.{f.name}/size-provenance/{S}",
+                                f"{f.module.relpath}:{a.lineno}",
+                                f"{C.name}.{f.name} fills the block `[:{S}, ...]` from "
+                                f"`self.{P.attr}`, a plot built from "
+                                f"`self.{sorted(built)[0]}`, but `{S}` was measured on "
+                                f"`self.{sorted(measured)[0]}`; `self.{sorted(built)[0]}` "
+                                f"is not always that array (a length-changing "
+                                f"transformation such as embedding replaces it): the "
+                                f"block does not fit")
+    run.floor("T7 sized block assemblies", n, 1)
+
+
 def t5(run: Run, cy: CyProgram):
     """Adaptive neighbourhood kernel: the neighbour linked to state l must be
     taken from l's own sorted neighbour list."""
     f = cy.func("pyunicorn.timeseries._ext.numerics", "_set_adaptive_neighborhood_size")
     if f is None:
         raise AnalysisError("_set_adaptive_neighborhood_size vanished")
+    # roles by declared type: the recurrence matrix is the 2-D LAG_t buffer that
+    # is stored to, the neighbour table the 2-D NODE_t buffer
+    bufs2 = [(n_, t) for n_, t in f.args if t.kind in ("buffer", "memview") and t.ndim == 2]
+    rec = next((n_ for n_, t in bufs2 if t.name == "LAG_t"), "recurrence")
+    nbr = next((n_ for n_, t in bufs2 if t.name == "NODE_t"), "sorted_neighbors")
     # all definitions of scalar locals
     defs = {}
     for s in walk(f.body):
@@ -349,7 +465,7 @@ def t5(run: Run, cy: CyProgram):
                     defs.setdefault(t.a[0], []).append(s.a[1])
     n = 0
     for s in walk(f.body):
-        if not (isinstance(s, X) and s.k == "index" and pp(s.a[0]) == "recurrence"
+        if not (isinstance(s, X) and s.k == "index" and pp(s.a[0]) == rec
                 and len(s.a[1]) == 2):
             continue
         for row, col in ((s.a[1][0], s.a[1][1]), (s.a[1][1], s.a[1][0])):
@@ -357,13 +473,13 @@ def t5(run: Run, cy: CyProgram):
             if col.k == "name" and col.a[0] in defs:
                 cands = defs[col.a[0]]
             for c in cands:
-                if c.k == "index" and pp(c.a[0]) == "sorted_neighbors":
+                if c.k == "index" and pp(c.a[0]) == nbr:
                     n += 1
                     ok = pp(c.a[1][0]) == pp(row)
                     run.oblige("T5", f"{pp(s)}<-{pp(c)}", ok, sample={
                         "where": f"{f.module.relpath}:{s.line}"})
                     if not ok:
-                        run.add("T5", f"{f.name}/neighbour-row/{pp(c)}",
+                        run.add("T5", f"{f.name}/neighbour-row",
                                 f"{f.module.relpath}:{c.line or s.line}",
                                 f"{f.name}: `{pp(s)}` links state `{pp(row)}` to "
                                 f"`{pp(c)}`, a neighbour taken from the sorted list of "
@@ -417,6 +533,8 @@ def t6(run: Run, cy: CyProgram):
 
 
 def check(run: Run, prog: Program, cy: CyProgram, sites=None):
+    run.rule("T7", "a matrix block sized by a stored length is filled from a plot built "
+             "on the series that length was measured on")
     run.rule("T6", "library calls inside the plot family's kernels respect the "
              "argument types the supported interpreters accept (random.seed)")
     run.rule("T1", "every compiled entry point used by the recurrence-plot family is "
@@ -444,3 +562,4 @@ def check(run: Run, prog: Program, cy: CyProgram, sites=None):
     t4(run, prog)
     t5(run, cy)
     t6(run, cy)
+    t7(run, prog)
